@@ -157,7 +157,11 @@ func Qualifier(name, query string) (Filter, error) {
 	if name == "" {
 		return func(f Feature) bool {
 			for _, vv := range f.Props {
-				for _, v := range vv {
+				if len(vv) == 0 {
+					continue
+				}
+				// The first element is the qualifier name, not a value.
+				for _, v := range vv[1:] {
 					if re.MatchString(v) {
 						return true
 					}
